@@ -1,5 +1,33 @@
-// rng_shim (plain) — the process CSPRNG without a freshness model: values are arbitrary.
-// Units that decide C07 use rng_tape_shim.rs (ghost tape) instead.
+// rng_shim — the process CSPRNG as a ghost tape (A-rng).  TRUSTED model:
+//   * one tape per thread of control; `pos` is the read cursor, `cells` the (unbounded) sequence of draws;
+//   * `Scalar::random(thread_rng())` returns the scalar cell at `pos` and advances by one;
+//   * `rng.fill_bytes(buf)` returns the next buf.len() byte cells and advances by buf.len().
+// Idealisation used only to INTERPRET C07 (never as an SMT axiom): cells are independent uniform draws.
+// The tape is threaded through the callers of the randomness source by extractor rule R10 (ghost,
+// erased at run time).  Only `rand::thread_rng` is an approved source: any other source has no tape
+// contract, so the freshness postconditions of its callers fail.
+pub tracked struct RngTape {
+    pub ghost cells: Seq<Scalar>,
+    pub ghost bytes: Seq<u8>,
+    pub ghost pos: nat,
+    pub ghost bpos: nat,
+}
+
+impl RngTape {
+    /// the k-th scalar drawn after the current position
+    pub open spec fn cell(self, k: nat) -> Scalar { self.cells[(self.pos + k) as int] }
+    /// scalars pos .. pos + n
+    pub open spec fn window(self, n: nat) -> Seq<Scalar> { Seq::new(n, |k: int| self.cells[self.pos + k]) }
+    pub open spec fn byte_window(self, n: nat) -> Seq<u8> { Seq::new(n, |k: int| self.bytes[self.bpos + k]) }
+    /// same tape contents, cursor advanced by n scalars
+    pub open spec fn advanced(self, other: RngTape, n: nat) -> bool {
+        other.cells == self.cells && other.bytes == self.bytes && other.pos == self.pos + n && other.bpos == self.bpos
+    }
+    pub open spec fn advanced_bytes(self, other: RngTape, n: nat) -> bool {
+        other.cells == self.cells && other.bytes == self.bytes && other.pos == self.pos && other.bpos == self.bpos + n
+    }
+}
+
 #[verifier::external_body]
 pub struct ThreadRng { _p: u8 }
 
@@ -13,13 +41,19 @@ pub mod rand {
 impl ThreadRng {
     /// rand::RngCore::fill_bytes
     #[verifier::external_body]
-    pub fn fill_bytes(&mut self, dest: &mut [u8])
-        ensures final(dest)@.len() == old(dest)@.len(),
+    pub fn fill_bytes(&mut self, dest: &mut [u8], Tracked(tape): Tracked<&mut RngTape>)
+        ensures
+            final(dest)@ == old(tape).byte_window(old(dest)@.len()),
+            old(tape).advanced_bytes(*final(tape), old(dest)@.len()),
     { unimplemented!() }
 }
 
 impl Scalar {
-    /// ff::Field::random
+    /// ff::Field::random(rng)
     #[verifier::external_body]
-    pub fn random(rng: ThreadRng) -> (r: Scalar) { unimplemented!() }
+    pub fn random(rng: ThreadRng, Tracked(tape): Tracked<&mut RngTape>) -> (r: Scalar)
+        ensures
+            r == old(tape).cell(0),
+            old(tape).advanced(*final(tape), 1),
+    { unimplemented!() }
 }
